@@ -11,9 +11,40 @@ from fmtlib import S, T
 
 
 def flatten_comments(src):
-    """every block comment on one line (line breaks inside /* */ replaced by spaces)"""
-    import re
-    return re.sub(r"/\*.*?\*/", lambda m: m.group(0).replace("\r", " ").replace("\n", " "), src, flags=re.S)
+    """every block comment on one line: line breaks inside /* */ (nesting honoured; `//` comments and strings skipped)
+    are replaced by spaces"""
+    out = []
+    i, n = 0, len(src)
+    while i < n:
+        if src.startswith("//", i):
+            j = i
+            while j < n and src[j] not in "\r\n":
+                j += 1
+            out.append(src[i:j])
+            i = j
+        elif src[i] == '"':
+            j = i + 1
+            while j < n and src[j] not in '"\r\n':
+                j += 1
+            out.append(src[i:j + 1])
+            i = j + 1
+        elif src.startswith("/*", i):
+            depth, j = 1, i + 2
+            while j < n and depth > 0:
+                if src.startswith("/*", j):
+                    depth += 1
+                    j += 2
+                elif src.startswith("*/", j):
+                    depth -= 1
+                    j += 2
+                else:
+                    j += 1
+            out.append(src[i:j].replace("\r", " ").replace("\n", " "))
+            i = j
+        else:
+            out.append(src[i])
+            i += 1
+    return "".join(out)
 
 
 def format_project(ctx, files, fmt, ast=True):
@@ -63,6 +94,24 @@ def check_project(ctx, files, fmt, dist, origin):
     classes = classify(ctx, r1, fmt)
     for k in classes:
         dist["class:" + k] = dist.get("class:" + k, 0) + 1
+    # C13_join_fixed on the REAL chunk lists: they are in the theorem's domain (stable) unless the file has a multi-line
+    # comment, and re-chunking the real output through the real join_chunks reproduces the formatter's text
+    for name, f in sorted(r1["files"].items()):
+        m = ctx.model.call({"cmd": "rechunk", "chunks": f["chunks"], "fmt": fmt})
+        if "rechunked" not in m:
+            chk.tie_break("model", "mosmodel_fmt rechunk failed: %s" % str(m)[:200], replay)
+            continue
+        if m.get("stable"):
+            dist["real_chunk_lists_stable"] = dist.get("real_chunk_lists_stable", 0) + 1
+            rj = ctx.probe.call({"cmd": "join", "chunks": m["rechunked"], "fmt": fmt})
+            if "joined" not in rj or S(rj["joined"]) != f["formatted"]:
+                chk.oracle_failure(None, "%s: re-chunking the formatter's lines and joining them again (real join_chunks) changes the text" % name,
+                                   dict(replay, formatted=f["formatted"], rejoined=S(rj.get("joined", []))))
+        else:
+            dist["real_chunk_lists_unstable"] = dist.get("real_chunk_lists_unstable", 0) + 1
+            if "Known_multiline_comment" not in classes:
+                chk.tie_break("correspondence:stable_chunks", "a real chunk list of a program without multi-line comments is outside the domain of "
+                              "C13_join_fixed (stable_chunks = false)", dict(replay, chunks=chunks_plain(f["chunks"])))
     files1 = dict(files)
     files1.update(f1)
     f2, r2 = format_project(ctx, files1, fmt)
